@@ -174,6 +174,17 @@ class Setup(Lane):
         return {'cmd': 'async:connect', 'url': url, 'stream': cd['stream'], 'bind_unix': bool(sch == 'ldapi' and cd['stream'] is None and host), 'stall_listener': stall, 'timeout_ms': None if cd['timeout'] is None else 300, 'starttls': True if stall else bool(z3.is_true(cd['starttls'])),
                 'want_host': host, 'want_port': None if cd['port'] is None else conc(cd['port'])}
 
+    def replay_by_role(self, cd, obname, out, m):
+        sch = cd['scheme_name']
+        if 'TCP target port' in obname and sch in ('ldap', 'ldaps') and cd['stream'] is None and cd['port'] is not None:
+            # the URL names an explicit port: a listener on a free port must see the connection arrive
+            case = {'cmd': 'async:connect', 'url': '', 'target_listener': True, 'scheme': sch, 'timeout_ms': 600, 'starttls': False, 'stream': None}
+            nj = native([case])[0]
+            v = nj.get('value') or {}
+            bad = None if v.get('accepted') else f'{sch}://127.0.0.1:<port>/ did not connect to the port named in the URL (result: {v.get("result")})'
+            return bool(bad), 'tcp-target-port', (f'C18.connection_setup: {bad}' if bad else None), case, {'native': nj}
+        return self.default_replay(cd, self.case(cd), out, m)
+
     def native_outcome(self, cd, j):
         if j['outcome'] == 'panic': return native_panic(j)
         v = j['value']
